@@ -1,11 +1,11 @@
 #![no_main]
-// Coverage-guided campaign for C08: the fuzzer's bytes are decoded (serde byte decoder, then Prop::sanitize) into the SAME
+// Coverage-guided campaign for C12: the fuzzer's bytes are decoded (serde byte decoder, then Prop::sanitize) into the SAME
 // case type that the property check generates; the SAME interpreter and oracle run in-process; AddressSanitizer is the
 // extra monitor.
 use libfuzzer_sys::fuzz_target;
 use sds_verif::fuzzing;
-use sds_verif::props::c08::C08;
+use sds_verif::props::c12::C12;
 
 fuzz_target!(|data: &[u8]| {
-    fuzzing::one_input::<C08>(data);
+    fuzzing::one_input::<C12>(data);
 });
